@@ -177,26 +177,28 @@ func (net *Network) AddLink(l geom.LineString, speed float64) {
 	net.neighbors[tid][fid] = e
 }
 
-// Weight returns the weight associated with this edge.
+// Weight returns the weight of the edge between the nodes with IDs xid and yid.
+// It implements gonum's path.Weighted interface, which the A* search needs
+// in order to use link distances or times rather than uniform costs.
 // It is not intended for direct use in this package.
-func (net *Network) Weight(e graph.Edge) float64 {
-	if n, ok := net.neighbors[e.From().ID()]; ok {
-		if we, ok := n[e.To().ID()]; ok {
+func (net Network) Weight(xid, yid int64) (w float64, ok bool) {
+	if xid == yid {
+		return 0, true
+	}
+	if n, ok := net.neighbors[xid]; ok {
+		if we, ok := n[yid]; ok {
 			switch net.minimizeOption {
-			// If we're optimizing by time, return use the minimum speed to
-			// calculate the time to ensure the heuristic is less than the actual
-			// value
 			case Time:
-				return we.time
+				return we.time, true
 			case Distance:
 				// If we're optimizing by distance, just return the distance.
-				return we.length
+				return we.length, true
 			default:
 				panic(fmt.Errorf("Invalid MinimizeOption %v", net.minimizeOption))
 			}
 		}
 	}
-	panic("route: attempting to find an edge that is not in the graph")
+	return math.Inf(1), false
 }
 
 type edge struct {
